@@ -302,10 +302,17 @@ _GL = {}
 
 
 def gauss_legendre(n=120, lo=-14.0, hi=14.0):
+    """Composite Gauss-Legendre rule with about n nodes: n // 8 panels with 8 nodes each."""
     key = (n, lo, hi)
     if key not in _GL:
-        t, w = np.polynomial.legendre.leggauss(n)
-        _GL[key] = (0.5 * (hi - lo) * t + 0.5 * (hi + lo), 0.5 * (hi - lo) * w)
+        panels = max(1, n // 8)
+        t, w = np.polynomial.legendre.leggauss(8)
+        edges = np.linspace(lo, hi, panels + 1)
+        xs, ws = [], []
+        for a, b in zip(edges[:-1], edges[1:]):
+            xs.append(0.5 * (b - a) * t + 0.5 * (b + a))
+            ws.append(0.5 * (b - a) * w)
+        _GL[key] = (np.concatenate(xs), np.concatenate(ws))
     return _GL[key]
 
 
@@ -321,7 +328,7 @@ def integrate_ref(sc: Circuit, val, zvars, y: dict, dom=None, gl_nodes=120) -> n
             axes.append(list(range(d[1])))
             weights.append([1.0] * d[1])
         else:
-            t, w = gauss_legendre(gl_nodes)
+            t, w = gauss_legendre(gl_nodes, -10.5, 10.5)
             axes.append(list(t))
             weights.append(list(w))
     total = None
